@@ -35,6 +35,7 @@ type lifeScn struct {
 	Chan    int      `json:"chan,omitempty"` // 0 or 1
 	Watch   int      `json:"watch,omitempty"` // watchdog in ms (default 1500)
 	Burst   bool     `json:"burst,omitempty"` // the calls are started back to back, without letting each one settle
+	Extra   int      `json:"extra,omitempty"` // further logical channels opened before the one under observation
 	LogoutAnswer string `json:"logoutanswer,omitempty"` // what the peer answers the logout with: "" = DONE(final), ret / eed / ack = another package
 	SlowFirst int    `json:"slowfirst,omitempty"` // the transport takes this many ms for the first request packet it is given (a slow network write)
 	Ops     []lifeOp `json:"ops"`
@@ -202,6 +203,15 @@ func runLife(tr *Tracer, cur *int64, scn *lifeScn) {
 	if err != nil {
 		panic(err)
 	}
+	var extras []*tds.Channel
+	for i := 0; i < scn.Extra; i++ {
+		x, err := conn.NewChannel()
+		if err != nil {
+			r.emit(Ev{"ev": "SetupFailed", "text": err.Error()})
+			return
+		}
+		extras = append(extras, x)
+	}
 	if scn.Chan > 0 {
 		ch, err = conn.NewChannel()
 		if err != nil {
@@ -237,6 +247,18 @@ func runLife(tr *Tracer, cur *int64, scn *lifeScn) {
 					r.mc.Feed(mkPacket(4, 0, chid, 0, encRetStat(int32(v)).Bytes)) // no EOM: the response is not finished
 				} else {
 					r.mc.Feed(mkPacket(4, 1, chid, 0, encDone(tokDone, 0, 0, int32(v)).Bytes))
+				}
+			}
+			settle()
+		case "closeother":
+			// one of the other logical channels is closed on its own (not the one under observation)
+			r.emit(Ev{"ev": "Stray", "n": 0})
+			if op.N < len(extras) {
+				done := make(chan struct{})
+				go func() { extras[op.N].Close(); close(done) }()
+				select {
+				case <-done:
+				case <-time.After(time.Second):
 				}
 			}
 			settle()
@@ -504,6 +526,10 @@ func lifeMain(args []string) error {
 					scns = append(scns, lifeScn{K: k, Answers: true, Chan: 1, Ops: []lifeOp{{Op: "peer", N: fill}, {Op: "proto"}, {Op: "proto"}, {Op: "connclose"}}})
 				}
 			}
+			// several logical channels, one of the lower ones closed on its own, then Conn.Close: every
+			// remaining channel is closed by it
+			scns = append(scns, lifeScn{K: k, Answers: true, Chan: 1, Extra: 2, Ops: []lifeOp{{Op: "closeother", N: 0}, {Op: "connclose"}, {Op: "next"}, {Op: "send"}}})
+			scns = append(scns, lifeScn{K: k, Answers: true, Chan: 1, Extra: 3, Ops: []lifeOp{{Op: "closeother", N: 1}, {Op: "closeother", N: 0}, {Op: "connclose"}, {Op: "next", Wait: bp(false)}}})
 			// Close while a send is still inside its transport write
 			scns = append(scns, lifeScn{K: k, Answers: true, Chan: 1, SlowFirst: 200, Ops: []lifeOp{{Op: "send"}, {Op: "close"}, {Op: "next"}}})
 			scns = append(scns, lifeScn{K: k, Answers: true, Chan: 0, SlowFirst: 200, Ops: []lifeOp{{Op: "send"}, {Op: "connclose"}}})
